@@ -21,6 +21,8 @@ Four operation families share the machinery:
          modules are preserved exactly; the other families use copy.deepcopy snapshots, which are much faster
          but cut such links
 """
+import itertools
+
 import numpy
 
 from mc import Out, Case
@@ -226,6 +228,12 @@ def cases(tier):
     yield Case("seeded_reproducible_across_interpreters", {"kind": "interp"})
     for slot in LONG:
         yield Case("long_rows:%s" % slot, {"kind": "long", "slot": slot})
+    yield Case("call_forms", {"kind": "callforms"})
+    for what in HELD:
+        if tier == "thorough" or not what.endswith(":t"):
+            yield Case("held:%s" % what, {"kind": "held", "what": what})
+    for kind in ("vk", "fr"):
+        yield Case("restart:%s" % kind, {"kind": "restart", "what": kind})
 
 
 class _W(ss.World):
@@ -259,6 +267,12 @@ def evaluate(p):
         return _siblings()
     if p["kind"] == "interp":
         return _interp()
+    if p["kind"] == "callforms":
+        return _callforms()
+    if p["kind"] == "held":
+        return _held(p["what"])
+    if p["kind"] == "restart":
+        return _restart(p["what"])
     return _unseeded()
 
 
@@ -414,6 +428,110 @@ def _long(slot):
             o.check("long_extrusion_equals_isolated_reference", _bytes(obj.scrn) == table[r], sub="%s:row=%d" % (mode, r))
         o.stat("lib_calls", n_rows + 1)
     o.stat("nontrivial", n_rows)
+    return o
+
+
+# ----------------------------------------------------------------------------- ways of calling
+# (added after wave-5 seeded changes: a parameter inserted before `seed`, a scratch buffer shared between large
+#  screens, a restart that kept the old stream)
+
+def _callforms():
+    """the seed handed over positionally (documented parameter order of the pinned revision), by keyword, and
+    together with every other argument by keyword gives the same bytes, for the four seeded entry points"""
+    from aotools.turbulence import infinitephasescreen as ips, phasescreen as ps
+    o = Out()
+    ft = (FTB["r0"], FTB["N"], FTB["delta"], FTB["L0"], FTB["l0"])
+    ftk = dict(r0=FTB["r0"], N=FTB["N"], delta=FTB["delta"], L0=FTB["L0"], l0=FTB["l0"])
+    for seed in (0, 1, 7):
+        for name, f in (("ft", ps.ft_phase_screen), ("ftsh", ps.ft_sh_phase_screen)):
+            ref = _bytes(f(*ft, seed=seed))
+            o.check("positional_seed_same_bytes", _bytes(f(*(ft + (None, seed)))) == ref, sub="%s:seed=%d" % (name, seed))
+            o.check("all_keywords_same_bytes", _bytes(f(seed=seed, FFT=None, **ftk)) == ref, sub="%s:seed=%d" % (name, seed))
+            o.check("seeded_calls_repeat", _bytes(f(*ft, seed=seed)) == ref, sub="%s:seed=%d" % (name, seed))
+        for name, cls, b, extra in (("vk", ips.PhaseScreenVonKarman, VKB, "n_columns"),
+                                    ("fr", ips.PhaseScreenKolmogorov, FRB, "stencil_length_factor")):
+            def rows(obj):
+                out = [_bytes(obj.scrn)]
+                for _ in range(3):
+                    obj.add_row()
+                    out.append(_bytes(obj.scrn))
+                return out
+            ref = rows(cls(b["nx"], b["ps"], b["r0"], b["L0"], random_seed=seed, **{extra: b["sd"]}))
+            o.check("positional_seed_same_bytes", rows(cls(b["nx"], b["ps"], b["r0"], b["L0"], seed, b["sd"])) == ref,
+                    sub="%s:seed=%d" % (name, seed))
+            o.check("all_keywords_same_bytes",
+                    rows(cls(nx_size=b["nx"], pixel_scale=b["ps"], r0=b["r0"], L0=b["L0"], random_seed=seed, **{extra: b["sd"]})) == ref,
+                    sub="%s:seed=%d" % (name, seed))
+    o.stat("lib_calls", 3 * (2 * 4 + 2 * 3))
+    return o
+
+
+# results that the caller still holds while later screens are made (sizes up to FFT grids of 1024 / 1028 points)
+HELD = ["ft:8", "ftsh:8", "ft:130", "ftsh:130", "ft:1024", "ftsh:1024", "vk:9", "fr:9", "fr:257", "ft:2048:t", "vk:130:t"]
+
+
+def _held(what):
+    """hold the result of seed 1; make seed 2, seed 1 again and an unseeded one of the same size; the held arrays
+    are still what they were, seed 1 repeats, seed 2 and the unseeded one differ"""
+    from aotools.turbulence import phasescreen as ps
+    o = Out()
+    kind, n = what.split(":")[0], int(what.split(":")[1])
+
+    def make(seed):
+        if kind in ("ft", "ftsh"):
+            f = ps.ft_phase_screen if kind == "ft" else ps.ft_sh_phase_screen
+            return None, f(FTB["r0"], n, FTB["delta"], FTB["L0"], FTB["l0"], seed=seed)
+        obj = _new(kind, _var(VKB if kind == "vk" else FRB, nx=n), seed)
+        return obj, obj.scrn
+
+    held = []
+    for seed in (1, 2, 1, None, 2):
+        obj, a = make(seed)
+        held.append((seed, obj, a, _bytes(a)))
+        for k, (sd, _, arr, b) in enumerate(held):
+            o.check("held_result_not_overwritten", _bytes(arr) == b, sub="result %d (seed %s) after call %d" % (k, sd, len(held)))
+    o.check("same_seed_same_bytes", held[0][3] == held[2][3] and held[1][3] == held[4][3])
+    o.check("different_seeds_give_different_screens", held[0][3] != held[1][3])
+    o.check("unseeded_differs", held[3][3] not in (held[0][3], held[1][3]))
+    if kind in ("vk", "fr"):
+        # rows added to one instance do not move the others, and equal-seed instances stay equal row by row
+        for step in range(3):
+            held[0][1].add_row()
+            held[2][1].add_row()
+            o.check("same_seed_same_bytes", _bytes(held[0][1].scrn) == _bytes(held[2][1].scrn), sub="row %d" % (step + 1))
+            o.check("held_result_not_overwritten", _bytes(held[1][1].scrn) == held[1][3] and _bytes(held[4][1].scrn) == held[4][3],
+                    sub="other instances after row %d" % (step + 1))
+    o.stat("lib_calls", 5)
+    return o
+
+
+def _restart(kind):
+    """make_initial_screen() on a live integer-seeded instance restarts it: the instance then is what a fresh
+    instance with its current parameters and seed is, and evolves like one (also after random_seed was reassigned)"""
+    o = Out()
+    base = VKB if kind == "vk" else FRB
+
+    def rows(obj, n=3):
+        out = [_bytes(obj.scrn)]
+        for _ in range(n):
+            obj.add_row()
+            out.append(_bytes(obj.scrn))
+        return out
+
+    for seed, pre in itertools.product((1, 2), (0, 1, 3)):
+        ref = rows(_new(kind, base, seed))
+        obj = _new(kind, base, seed)
+        for _ in range(pre):
+            obj.add_row()
+        obj.make_initial_screen()
+        o.check("restart_equals_fresh_instance", rows(obj) == ref, sub="seed=%d:rows_before=%d" % (seed, pre))
+        obj2 = _new(kind, base, 3 - seed)
+        for _ in range(pre):
+            obj2.add_row()
+        obj2.random_seed = seed
+        obj2.make_initial_screen()
+        o.check("restart_equals_fresh_instance", rows(obj2) == ref, sub="seed reassigned to %d:rows_before=%d" % (seed, pre))
+    o.stat("lib_calls", 18)
     return o
 
 
